@@ -34,7 +34,7 @@ ANCHORS = [
     "acnportal.acndata.utils:parse_dates",
 ]
 REQUIRED = ["interleaved_scenarios", "scenarios_judged", "multi_page_scenarios", "empty_page_scenarios", "zero_document_scenarios", "timeseries_scenarios",
-            "time_filter_scenarios", "date_fields_checked", "timeseries_timestamps_checked", "timeseries_straddling_offset_change", "chains_of_over_1000_pages", "meta_block:small", "meta_block:absent", "meta_block:zero", "round_trips", "tzinfo:zoneinfo", "zoneinfo_fold_1_with_microseconds", "invalid_site_rejections", "calls_leaving_default_options_unmentioned", "filters_with_template_characters", "filter_form:json", "site_given_as:enum", "site_given_as:labelled", "windows_also_asked_for_as_a_count",
+            "time_filter_scenarios", "date_fields_checked", "timeseries_timestamps_checked", "timeseries_straddling_offset_change", "chains_of_over_1000_pages", "meta_block:small", "meta_block:absent", "meta_block:zero", "round_trips", "tzinfo:zoneinfo", "zoneinfo_fold_1_with_microseconds", "invalid_site_rejections", "calls_leaving_default_options_unmentioned", "filters_with_template_characters", "filter_form:json", "site_given_as:enum", "site_given_as:labelled", "windows_also_asked_for_as_a_count", "downloads_with_one_request_answered_429",
             "regime:dst-transition-instant"]
 BUDGET_S = {"quick": 200, "thorough": 2400}
 ZONES = ["America/Los_Angeles", "America/New_York", "Europe/London", "Asia/Kolkata", "Australia/Sydney", "UTC",
@@ -60,6 +60,8 @@ def cases(seed, tier):
                     "empty_last": rng.random() < 0.15, "extra_links": rng.random() < 0.7, "ts": rng.random() < 0.2,
                     "mode": rng.choice(["all", "time", "time", "args"]),
                     "meta": rng.choice(["accurate", "accurate", "absent", "small", "zero", "large", "text"])})
+        if out[-1]["mode"] == "all" and rng.random() < 0.35:
+            out[-1]["throttle"] = rng.choice([2, 2, 3, 4, 1])  # which request of the download the busy server answers with 429
     # very long chains of 'next' links: a thousand pages and more (one session per page is how the time-series endpoint pages)
     for i in range(3 if tier == "quick" else 40):
         out.append({"kind": "paging", "seed": rng.randrange(1 << 40), "n": rng.choice([1100, 1600, 2300]), "tz": rng.choice(ZONES),
@@ -164,6 +166,27 @@ def _run_paging(case, obs):
         tskw = {} if (terse and not case["ts"]) else {"timeseries": case["ts"]}
         if terse:
             obs.ev("calls_leaving_default_options_unmentioned")
+        if mode == "all" and case.get("throttle"):
+            # a server fault in the middle of a download: one page request is answered with 429 (an error document, no items).
+            # Whether the client gives up loudly or waits and retries is its choice; what it has yielded by then - and in the end,
+            # if it finishes - is the server's list from the start, in order, each session once
+            fake.throttle_at = {case["throttle"]}
+            got, raised = [], None
+            try:
+                for g_ in client.get_sessions(site, **tskw):
+                    got.append(g_)
+            except Exception as e_:
+                raised = type(e_).__name__
+            ids_ = [g_.get("_id") for g_ in got]
+            exp_ = [d_["_id"] for d_ in docs]
+            obs.ev("downloads_with_one_request_answered_429")
+            obs.ev("throttled_downloads_that_" + ("raised" if raised else "completed"))
+            if ids_ != exp_[:len(ids_)] or (raised is None and ids_ != exp_):
+                dup_ = sorted({i_ for i_ in ids_ if ids_.count(i_) > 1})[:5] if len(ids_) < 3000 else []
+                obs.violate("sessions_duplicated" if dup_ else "sessions_lost", f"request {case['throttle']} answered with 429; the generator "
+                            f"{'raised ' + raised if raised else 'finished'} after yielding {len(ids_)} sessions of {len(exp_)}: not the server's list from the "
+                            f"start (duplicated {dup_})", config=dict(cfg, throttle_at=case["throttle"]))
+            return
         if mode == "all":
             got = []
             try:
